@@ -1673,7 +1673,7 @@ class IRGenerator:
             return mk_route_schema()
 
         for data_type in stone_cfg.data_types:
-            if data_type.name != 'Route':
+            if data_type.name != 'Route' or not is_struct_type(data_type):
                 raise InvalidSpec(
                     "Only a struct named 'Route' can be defined in the "
                     "stone_cfg namespace.",
